@@ -66,6 +66,8 @@ type cRig struct {
 	subOn     bool
 	cb        int32
 	subCancel func()
+	paused    bool
+	kick      chan struct{}
 	holdCh    chan struct{} // armed: the stream's Close blocks at its entry until the channel is closed
 	unheld    bool
 }
@@ -204,6 +206,14 @@ func cmdClient(args []string) {
 		rec.Take()
 		r := newCRig(fmt.Sprint("c", n))
 		st := clientOne(res, r, trk, rec, ops)
+		if st == 0 && raceOfSelect(ops) {
+			// the forwarding goroutine's select may find its queue closed AND the abort channel closed: both
+			// branches must close the channel; the choice is the runtime's, so such behaviours run again
+			for rep := 0; rep < 5 && st == 0; rep++ {
+				rec.Take()
+				st = clientOne(res, newCRig(fmt.Sprint("c", n, "r", rep)), trk, rec, ops)
+			}
+		}
 		if st == 1 {
 			diverged++
 		}
@@ -247,6 +257,7 @@ func clientOne(res *hlib.Result, r *cRig, trk *tracker, rec *hlib.Recorder, ops 
 				close(c.release)
 			}
 		}
+		r.paused = false
 		r.mu.Unlock()
 		r.unhold()
 		r.ep.Close()
@@ -289,11 +300,27 @@ func clientOne(res *hlib.Result, r *cRig, trk *tracker, rec *hlib.Recorder, ops 
 			}
 			r.subOn = true
 			r.subDone = make(chan struct{})
+			r.kick = make(chan struct{}, 1)
 			go func() {
-				for range events {
-					atomic.AddInt32(&r.subGot, 1)
+				for {
+					// a subscriber that has stopped reading does not touch its channel
+					r.mu.Lock()
+					for r.paused {
+						r.mu.Unlock()
+						time.Sleep(200 * time.Microsecond)
+						r.mu.Lock()
+					}
+					r.mu.Unlock()
+					select {
+					case _, ok := <-events:
+						if !ok {
+							close(r.subDone)
+							return
+						}
+						atomic.AddInt32(&r.subGot, 1)
+					case <-r.kick:
+					}
 				}
-				close(r.subDone)
 			}()
 		case "disc":
 			r.client.OnDisconnect(func(err error) { atomic.AddInt32(&r.cb, 1) })
@@ -303,6 +330,21 @@ func clientOne(res *hlib.Result, r *cRig, trk *tracker, rec *hlib.Recorder, ops 
 			r.st.FeedEOF()
 		case "close":
 			r.ep.Close()
+		case "pause":
+			r.mu.Lock()
+			r.paused = true
+			r.mu.Unlock()
+			if r.kick != nil {
+				select {
+				case r.kick <- struct{}{}:
+				default:
+				}
+			}
+			time.Sleep(2 * time.Millisecond) // the reader leaves its receive
+		case "resume":
+			r.mu.Lock()
+			r.paused = false
+			r.mu.Unlock()
 		case "cancel":
 			if r.subCancel != nil {
 				r.subCancel()
@@ -317,6 +359,13 @@ func clientOne(res *hlib.Result, r *cRig, trk *tracker, rec *hlib.Recorder, ops 
 		}
 		// wait for quiescence: what the specification expects to have finished must finish
 		exp := o.Post
+		r.mu.Lock()
+		blind := r.paused
+		r.mu.Unlock()
+		if blind && exp.Sub == 2 {
+			// a subscriber that does not read cannot see that its channel was closed: not observable now
+			exp.Sub = 1
+		}
 		ok := true
 		if o.O == "reply" || o.O == "rest" || o.O == "event" || o.O == "half" {
 			if exp.Dead == 0 {
@@ -363,6 +412,9 @@ func clientOne(res *hlib.Result, r *cRig, trk *tracker, rec *hlib.Recorder, ops 
 		if !ok {
 			// not what the representative behaviour expects: another allowed outcome, or a hang
 			for _, a := range o.Allowed {
+				if blind && a.Sub == 2 {
+					a.Sub = 1
+				}
 				if sameObs(a, got) {
 					return 1
 				}
@@ -381,6 +433,9 @@ func clientOne(res *hlib.Result, r *cRig, trk *tracker, rec *hlib.Recorder, ops 
 			continue
 		}
 		for _, a := range o.Allowed {
+			if blind && a.Sub == 2 {
+				a.Sub = 1
+			}
 			if sameObs(a, got) {
 				return 1
 			}
@@ -413,6 +468,19 @@ func earlyErrorOnly(exp, got cObs) bool {
 		return false
 	}
 	return diff
+}
+
+func raceOfSelect(ops []cOp) bool {
+	cancel, loss := false, false
+	for _, o := range ops {
+		switch o.O {
+		case "cancel":
+			cancel = true
+		case "eof", "fail", "close":
+			loss = true
+		}
+	}
+	return cancel && loss
 }
 
 func (r *cRig) unhold() {
